@@ -28,9 +28,9 @@ def attrEnv (env : Env) : Env :=
 
 /-- `parse_attribute_query_response` hands only `entity_id` and `attribute_converters` to the constructor: the three
     signature options and `allow_unsolicited` keep their constructor defaults (all false) whatever the configuration
-    says.  A signature that is present is still verified. -/
+    says.  A signature that is present is still verified.  No `extension_schema` either (`noExt`). -/
 def attrCfg (cfg : Cfg) : Cfg :=
-  { cfg with allowUnsolicited := false, wantResp := false, wantAssert := false, wantEither := false }
+  { cfg with allowUnsolicited := false, wantResp := false, wantAssert := false, wantEither := false, extSchemas := [] }
 
 /-- `parse_attribute_query_response`. -/
 def processAttr (cfg : Cfg) (env : Env) (r : Response) : Outcome :=
